@@ -61,6 +61,8 @@ type FuncSpec struct {
 	Logged     bool
 	NoFrame    bool
 	ErrProp    bool
+	Sig        string
+	HTMLLicensed bool
 	Tolerate   *Clause
 	Ghost      []*Clause
 	File       string
@@ -74,6 +76,7 @@ type PredSpec struct {
 	Params  []VarDecl
 	Result  string // Go type text; "bool" for pred
 	Body    Expr   // nil => uninterpreted
+	Ghost   bool   // ghost field of an object: name(obj) reads a per-object ghost heap
 	Heap    bool   // heap-dependent recursive spec function (encoded over explicit heap arguments)
 	File    string
 	Line    int
@@ -178,11 +181,14 @@ func (sp *Specs) LoadSpecFile(path, pkgName string) {
 		switch word {
 		case "package":
 			pkgName = rest
-		case "pred", "spec", "heapspec":
+		case "pred", "spec", "heapspec", "ghostfield":
 			cur = nil
 			ps, err := parsePredHeader(rest, word == "pred")
 			if ps != nil && word == "heapspec" {
 				ps.Heap = true
+			}
+			if ps != nil && word == "ghostfield" {
+				ps.Ghost = true
 			}
 			if err != nil {
 				errf(l, "%v", err)
@@ -319,6 +325,14 @@ func (sp *Specs) LoadSpecFile(path, pkgName string) {
 				}
 			default:
 				errf(l, "bad loop clause %q", body)
+			}
+		case "licensed-html-conversion":
+			if cur != nil {
+				cur.HTMLLicensed = true
+			}
+		case "sig":
+			if cur != nil {
+				cur.Sig = rest
 			}
 		case "errprop":
 			if cur == nil {
